@@ -688,32 +688,33 @@ def _touch(s, save=True):
 def _reobserve(s, exp, opd, ctx, opname, old_cube=None, save=True):
     """After an in-place change of an index whose readers had all been used before: every reader must show the NEW content."""
     shape = tuple(s.shape)
+    P = "C17" if ctx.focus == "C17" else "C06"     # stale state between calls is a purity finding when C17 is being decided
     if old_cube is not None and exp.size and all(0 <= int(v) < 4 for v in exp.flat) and 0 <= s.common < 4:
         # the cube object built BEFORE the change holds the index, not a copy of it: asked again it must count the new content
         got = numpy.asarray(old_cube.count(return_missing_as=(0, False))[0])
         want = numpy.stack([(exp == v).sum(axis=0) for v in range(4)], axis=-1) if exp.ndim > 1 else numpy.array([(exp == v).sum() for v in range(4)])
         if got.tolist() != want.tolist():
-            ctx.v("C06", opname + ":stale:cube-built-before", opd, "the count cube built before the change gives %r afterwards, expected %r" % (got.tolist(), want.tolist()))
+            ctx.v(P, opname + ":stale:cube-built-before", opd, "the count cube built before the change gives %r afterwards, expected %r" % (got.tolist(), want.tolist()))
     if s.to_array(dtype=int).tolist() != exp.tolist():
-        ctx.v("C06", opname + ":stale:to_array", opd, "to_array after the change = %r, expected %r" % (s.to_array(dtype=int).tolist(), exp.tolist()))
+        ctx.v(P, opname + ":stale:to_array", opd, "to_array after the change = %r, expected %r" % (s.to_array(dtype=int).tolist(), exp.tolist()))
     if len(shape) > 1:
         for coords, sl in s.slices1d():
             got = M.read_dense(sl).tolist()
             want = exp[(slice(None),) + tuple(coords)].tolist()
             if got != want:
-                ctx.v("C06", opname + ":stale:slices1d", opd, "slice %r after the change = %r (common %r), expected %r" % (tuple(coords), got, sl.common, want))
+                ctx.v(P, opname + ":stale:slices1d", opd, "slice %r after the change = %r (common %r), expected %r" % (tuple(coords), got, sl.common, want))
     for hc in cells_of(shape[1:]):
         cr = s.common_rowids(*hc).tolist()
         want = [r for r in range(shape[0]) if exp[(r,) + hc] == s.common]
         if cr != want:
-            ctx.v("C06", opname + ":stale:common_rowids", opd, "common_rowids%r after the change = %r, expected %r" % (hc, cr, want))
+            ctx.v(P, opname + ":stale:common_rowids", opd, "common_rowids%r after the change = %r, expected %r" % (hc, cr, want))
     present = set(int(x) for x in exp.flat)
     if exp.size and all(v >= 0 for v in present | {s.common}):
         from catii.ccubes import ccube as _cc
 
         got_shape = tuple(int(x) for x in _cc([s]).interacting_shape)
         if got_shape != (max(present | {s.common}) + 1,):
-            ctx.v("C06", opname + ":stale:inferred-cube-shape", opd, "a cube built over the changed index infers shape %r, expected %r" % (got_shape, (max(present | {s.common}) + 1,)))
+            ctx.v(P, opname + ":stale:inferred-cube-shape", opd, "a cube built over the changed index infers shape %r, expected %r" % (got_shape, (max(present | {s.common}) + 1,)))
         if save and len(shape) <= 2:
             from catii.indxio import IndxIO as _io
 
@@ -727,11 +728,11 @@ def _reobserve(s, exp, opd, ctx, opname, old_cube=None, save=True):
             os.unlink(path)
             back = type(s)(ents, cm, shape)
             if M.read_dense(back).tolist() != exp.tolist():
-                ctx.v("C06", opname + ":stale:indx-save", opd, "saving the changed index and loading it back gives %r, expected %r" % (M.read_dense(back).tolist(), exp.tolist()))
+                ctx.v(P, opname + ":stale:indx-save", opd, "saving the changed index and loading it back gives %r, expected %r" % (M.read_dense(back).tolist(), exp.tolist()))
     if set(s.abscissae) != present:
-        ctx.v("C06", opname + ":stale:abscissae", opd, "abscissae after the change %r, values present %r" % (sorted(s.abscissae), sorted(present)))
+        ctx.v(P, opname + ":stale:abscissae", opd, "abscissae after the change %r, values present %r" % (sorted(s.abscissae), sorted(present)))
     if exp.size and abs(s.sparsity - 100.0 * int((exp == s.common).sum()) / exp.size) > 1e-9:
-        ctx.v("C06", opname + ":stale:sparsity", opd, "sparsity after the change %r" % (s.sparsity,))
+        ctx.v(P, opname + ":stale:sparsity", opd, "sparsity after the change %r" % (s.sparsity,))
     if all(v >= 0 for v in present | {s.common}) and exp.size:
         from catii.ccubes import ccube
 
@@ -739,7 +740,7 @@ def _reobserve(s, exp, opd, ctx, opname, old_cube=None, save=True):
         got = ccube([s], interacting_shape=(E,)).count(return_missing_as=(0, False))[0]
         want = numpy.stack([(exp == v).sum(axis=0) for v in range(E)], axis=-1) if exp.ndim > 1 else numpy.array([(exp == v).sum() for v in range(E)])
         if numpy.asarray(got).tolist() != want.tolist():
-            ctx.v("C06", opname + ":stale:count-cube", opd, "count cube over the changed index = %r, expected %r" % (numpy.asarray(got).tolist(), want.tolist()))
+            ctx.v(P, opname + ":stale:count-cube", opd, "count cube over the changed index = %r, expected %r" % (numpy.asarray(got).tolist(), want.tolist()))
 
 
 def _expand_observe_mutate_observe(key, d, fresh, ctx, R, cols):
@@ -794,7 +795,7 @@ def _expand_observe_mutate_observe(key, d, fresh, ctx, R, cols):
                 if ctx.focus in (None, "C06", "C17"):
                     _reobserve(s, exp, od, ctx, opname, old_cube if exp.shape[0] == d.shape[0] else None, save=layout == "built")
             except Exception as e:  # noqa
-                ctx.v("C06", opname + ":stale:raised", od, repr(e))
+                ctx.v("C17" if ctx.focus == "C17" else "C06", opname + ":stale:raised", od, repr(e))
             ctx.ntrans += 1
 
     for v in (None,) + COMMONS:
